@@ -71,6 +71,10 @@ class Universe:
         self.n_out = 0
         self.oplog: list[dict] = []
         self.ever: set[str] = set()
+        self.ever_kinds: dict[str, set] = {}
+        self.record_inodes = False
+        self.graveyard = None  # if set: deletions are renames into this directory, so inode numbers are never re-used
+        self._grave_n = 0
 
     def abs(self, rel):
         return os.path.join(self.base, rel)
@@ -128,6 +132,15 @@ class Universe:
                     self.m.t[p] = "f"
         return top
 
+    def _delete(self, path, isdir):
+        if self.graveyard:
+            self._grave_n += 1
+            os.rename(path, os.path.join(self.graveyard, f"g{self._grave_n}"))
+        elif isdir:
+            os.rmdir(path)
+        else:
+            os.unlink(path)
+
     # ---- ground truth
     def walk_root(self):
         out = {}
@@ -152,6 +165,13 @@ class Universe:
         rec = {"op": list(op), "pre_kind": {}, "desc": []}
         m = self.m
         A = self.abs
+        if self.record_inodes:
+            rec["ino_before"] = {}
+            for q in ([op[1]] + (m.kids(op[1]) if kind == "rmtree" else [])) if isinstance(op[1], str) else []:
+                try:
+                    rec["ino_before"][q] = os.lstat(A(q)).st_ino
+                except OSError:
+                    pass
         if kind == "create":
             p = op[1]
             fd = os.open(A(p), os.O_CREAT | os.O_EXCL | os.O_WRONLY, 0o644)
@@ -169,7 +189,7 @@ class Universe:
             rec["pre_kind"][p] = m.t[p]
         elif kind == "unlink":
             p = op[1]
-            os.unlink(A(p))
+            self._delete(A(p), False)
             m.t.pop(p)
         elif kind == "mkdir":
             p = op[1]
@@ -202,29 +222,50 @@ class Universe:
                 rec["new"].append((q, k))
         elif kind == "rmdir":
             p = op[1]
-            os.rmdir(A(p))
+            self._delete(A(p), True)
             m.t.pop(p)
         elif kind == "rmtree":
             p = op[1]
             sub = [p] + m.kids(p)
             rec["desc"] = [(q, m.t[q]) for q in sub]
-            for q in sorted(sub, key=lambda q: -q.count("/")):
-                if m.t[q] == "d":
-                    os.rmdir(A(q))
-                else:
-                    os.unlink(A(q))
+            if self.graveyard:
+                self._delete(A(p), m.t[p] == "d")
+            else:
+                for q in sorted(sub, key=lambda q: -q.count("/")):
+                    if m.t[q] == "d":
+                        os.rmdir(A(q))
+                    else:
+                        os.unlink(A(q))
             m.remove(p)
         elif kind in ("rename", "move_out", "move_in"):
             s, d = op[1], op[2]
             rec["pre_kind"][s] = m.t[s]
             rec["dest_existed"] = m.t.get(d)
             rec["desc"] = [(q[len(s) + 1:], m.t[q]) for q in m.kids(s)]
+            if self.graveyard and m.t.get(d) is not None:
+                # keep the replaced entry's inode allocated (see graveyard): hard link for a file, move away for an empty directory
+                self._grave_n += 1
+                if m.t[d] == "f":
+                    os.link(A(d), os.path.join(self.graveyard, f"g{self._grave_n}"))
+                else:
+                    os.rename(A(d), os.path.join(self.graveyard, f"g{self._grave_n}"))
             os.rename(A(s), A(d))
             m.move(s, d)
         else:
             raise ValueError(kind)
+        if self.record_inodes:
+            rec["ino_after"] = {}
+            targets = [op[2]] if kind in ("rename", "move_out", "move_in") else ([q for q, _ in rec.get("new", [])] if kind == "burst" else
+                                                                                  (rec.get("new", []) if kind == "makedirs" else [op[1]]))
+            for q in targets:
+                try:
+                    rec["ino_after"][q] = os.lstat(A(q)).st_ino
+                except OSError:
+                    pass
         self.oplog.append(rec)
         self.ever.update(self.m.t)
+        for q, kk in self.m.t.items():
+            self.ever_kinds.setdefault(q, set()).add(kk)
         return rec
 
 
